@@ -73,7 +73,7 @@ class Uniq(object):
         return self.n
 
 
-def value_pool(b, rng, u):
+def value_pool(b, rng, u, sized=False):
     """a value this backend can encode; unique-ish so a read identifies its write"""
     n = u()
     common = [n, -n, n + 0.5, 'v%d' % n, None, BIG + str(n), '']
@@ -83,7 +83,7 @@ def value_pool(b, rng, u):
         return rng.choice(common + [[n, [2, 3]], {'k': [n, 2]}, True, float('inf')])
     if is_source(b):
         return rng.choice(common + [(n, 'a'), [n, [2, 3]], {'k': [n, 2]}, b'\x00\xff', True])
-    if b['kind'] in ('file', 'dir') and rng.random() < 0.004:
+    if sized and b['kind'] in ('file', 'dir') and rng.random() < 0.004:
         # a value whose pickle ends exactly on (or one byte around) a block boundary of the writers underneath
         return {'__padded__': [rng.choice([1 << 16, 1 << 20]) + rng.choice([0, 0, 0, 1, -1]), b.get('protocol')]}
     return rng.choice(common + [(n, 'a'), [n, [2, 3]], {'k': [n, 2]}, b'\x00\xff', float('inf'), {n: 2},
@@ -227,10 +227,10 @@ def gen_case_c03(rng):
         o = rng.choice(OPS)
         k = rng.choice(keys)
         if o in ('set', 'setdefault'):
-            ops.append([o, enc(k), enc(value_pool(b, rng, u))])
+            ops.append([o, enc(k), enc(value_pool(b, rng, u, sized=True))])
         elif o in ('update',):
             ks = rng.sample(keys, min(len(keys), rng.choice([1, 2, 3])))
-            ops.append([o, [[enc(x), enc(value_pool(b, rng, u))] for x in ks]])
+            ops.append([o, [[enc(x), enc(value_pool(b, rng, u, sized=True))] for x in ks]])
         elif o == 'updatekw':
             ops.append([o, {'kwa': enc(value_pool(b, rng, u))}])
         elif o in ('popkeys', 'popkeysd'):
@@ -710,7 +710,7 @@ def gen_case_c08(rng):
         o = rng.choice(OPS08)
         if o in ('cset', 'aset'):
             k = rng.choice(keys)
-            v = value_pool(b, rng, u)
+            v = value_pool(b, rng, u, sized=True)
             hist = used.setdefault(repr(k), [])
             if hist and rng.random() < 0.3:
                 v = rng.choice(hist)          # a value this key held before (A -> B -> A histories)
